@@ -9,8 +9,9 @@ IPS6 = ["2001:db8::1", "2001:db8:0:1::5", "fe80::1:2:3:4", "0::1", "1:2:3:4:5:6:
         "2001:DB8::A", "FE80::1:2:3:4", "ABCD:EF01:2345:6789:abcd:ef01:2345:6789"]
 
 MODESTR = ["+x", "+!", "-x", "-!", "+x!", "+!x", "+", "-", "+x-x", "+!-!", "-!+!", "++x", "+x+!", "-x-!", "+!!"]
-ACCTS = ["alice", "Bob", "c-3", "acct_with_a_rather_long_name", "x"]
-WORDS = ["hello", "world", "a", "%s%n", "x:y", ":lead", "100%", "tab", "z" * 30]
+# (bytes above 0x7f - names are bytes to the daemon, whatever encoding the network uses - also as the very first one)
+ACCTS = ["alice", "Bob", "c-3", "acct_with_a_rather_long_name", "x", "jos\xe9", "\xdcnder", "\xff\xfe"]
+WORDS = ["hello", "world", "a", "%s%n", "x:y", ":lead", "100%", "tab", "z" * 30, "caf\xe9", "\x80\xff"]
 
 
 def text_of(rng, maxlen=60, allow_edge=True):
